@@ -352,3 +352,39 @@ fn mso_events(w: &mut impl Write) -> usize {
 fn frame_would_overflow(_f: &FieldSpec, _enc_len: usize) -> bool {
     false
 }
+
+/// text-dbcs --table dbcs_full.json --out trace.ndjson : every defined pair of the complete double-byte tables,
+/// decoded after its marker (CpDec) and its character encoded (CpEnc)
+pub fn cmd_text_dbcs(a: &HashMap<String, String>) -> i32 {
+    let table = a.get("table").expect("--table");
+    let out = a.get("out").expect("--out");
+    let rows: Vec<Value> = serde_json::from_str(&std::fs::read_to_string(table).expect("read table")).expect("json");
+    let mut w = std::io::BufWriter::new(std::fs::File::create(out).expect("create"));
+    let mut n = 0usize;
+    for r in rows.iter() {
+        let letter = r[0].as_str().unwrap_or("J").as_bytes()[0];
+        let lead = r[1].as_u64().unwrap_or(0) as u8;
+        let trail = r[2].as_u64().unwrap_or(0) as u8;
+        let cp = r[3].as_u64().unwrap_or(63) as u32;
+        if trail == 0 {
+            let _ = writeln!(w, "{}", dec_event(&[b'^', letter, lead, b'A']));
+        } else {
+            let _ = writeln!(w, "{}", dec_event(&[b'^', letter, lead, trail, b'A']));
+        }
+        n += 1;
+        if let Some(ch) = char::from_u32(cp) {
+            let s: String = [ch, 'x'].iter().collect();
+            match guard(|| codepages::to_lossy_bytes(&s).to_vec()) {
+                Ok(b) => {
+                    let _ = writeln!(w, "{}", json!({"ev": "CpEnc", "in": cps(&s), "out": b}));
+                },
+                Err(()) => {
+                    let _ = writeln!(w, "{}", panic_ev("to_lossy_bytes", cps(&s)));
+                },
+            }
+            n += 1;
+        }
+    }
+    println!("{}", json!({"events": n, "pairs": rows.len()}));
+    0
+}
